@@ -1277,7 +1277,10 @@ func bleed(tokens []Token, _ string) pr.CssProperty {
 	if keyword == "auto" {
 		return pr.DimOrS{S: "auto"}
 	} else {
-		return getLength(token, true, false).ToValue()
+		if length := getLength(token, true, false); !length.IsNone() {
+			return length.ToValue()
+		}
+		return nil
 	}
 }
 
@@ -3632,7 +3635,10 @@ func tabSize(tokens []Token, _ string) pr.CssProperty {
 			return pr.NewDim(pr.Float(number.ValueF), 0).ToValue()
 		}
 	}
-	return getLength(token, false, false).ToValue()
+	if length := getLength(token, false, false); !length.IsNone() {
+		return length.ToValue()
+	}
+	return nil
 }
 
 // @validator(unstable=true)
